@@ -12,6 +12,7 @@ import Driver.Lexer
 import Driver.TagParser
 import Driver.Resolve
 import Driver.Render
+import Driver.Collect
 open Lean
 
 def dispatch (j : Json) : Except String Json := do
@@ -36,6 +37,7 @@ def dispatch (j : Json) : Except String Json := do
   | "parsetag" => Driver.TagParserD.handle j
   | "leaves" => Driver.ResolveD.handleLeaves j
   | "resolve" => Driver.ResolveD.handleResolve j
+  | "collect" => Driver.CollectD.handle j
   | "render" => Driver.RenderD.handle j
   | "specrender" => Driver.RenderD.handleSpec j
   | "ping" => pure (Json.mkObj [("pong", Json.bool true)])
